@@ -102,6 +102,11 @@ class G:
             s = (s or "a") + "\n" + self.pick(["second line", "x", "B: 'q'"])
         elif k == 3 and multiline_ok:
             s = (s.strip() or "a") + "\n" + "b\nc"
+        elif k == 4:
+            # the markup the game's message strings carry: [K], [hero], [CS:G]..[CR], [VS:1:2], unbalanced brackets
+            tags = ["[K]", "[C]", "[hero]", "[CS:G]", "[CR]", "[VS:1:2]", "[M:D1]", "[", "]", "[:", "[a b:c]", "[CN]", "[FT:0]"]
+            at = self.i(0, len(s))
+            s = s[:at] + self.pick(tags) + s[at:] + (self.pick(tags) if self.b() else "")
         return s
 
     def str_value(self):
